@@ -17,11 +17,11 @@ checks = {
          "Every entry any node's application is handed (any incarnation, sync and async interface) is compared with the first witness for that index and with the canonical committed log; snapshots are checked as statements about the prefix; application state hashes are compared per index. Sampled executions only: 'held on the worlds listed in the evidence'."),
  "C02": ("4/C02", "runtime monitor (leader-per-term registry, wire-level vote registry, durable-vote registry, independently recomputed joint majorities) over simulated hostile executions",
          "Role transitions, vote grants on the wire, durable hard states and the grants actually delivered during a candidacy are recorded; the majority is recomputed by an independent model. Sampled."),
- "C03": ("4/C03", "runtime monitor (chain-hash log matching map over every log after every call + invariant I2) over simulated hostile executions",
+ "C03": ("4/C03", "runtime monitor (chain-hash log matching map over every log after every call + invariant I2 incl. non-leader log growth without a delivered append) over simulated hostile executions",
          "After every call the touched node's whole logical log is re-read; new or changed entries are checked against a global (index,term)->prefix-hash map; entries may change only when a leader's MsgApp/MsgSnap is delivered. Sampled."),
  "C04": ("4/C04", "runtime monitor (new leader's log vs canonical committed log annotated with committing term; monotone agreement prefix) over simulated hostile executions",
          "At every new leadership the leader's log is compared with everything committed in earlier terms; overwriting an entry of the agreed prefix is flagged. Sampled."),
- "C05": ("4/C05", "runtime monitor (wire hand-over instant vs harness-owned fsync-modelled disk; crash at every contract-permitted sub-step) over simulated hostile executions",
+ "C05": ("4/C05", "runtime monitor (wire hand-over instant vs harness-owned fsync-modelled disk; crash at every contract-permitted sub-step; leadership assumed only after the own vote is durable) over simulated hostile executions",
          "Every vote grant / append acknowledgement / snapshot acknowledgement is compared with the sender's durable state at the instant the contract-following application hands it to the network; crashes cut Readys at every sub-step; all safety monitors stay attached across restarts. Sampled."),
  "C06": ("4/C06", "runtime monitor (leader commit advance vs durable quorum on disks, independently recomputed; follower commit vs canonical log; invariant I1) over simulated hostile executions",
          "Each leader commit advance is checked for own-term entry and a durable quorum in every voter set (recomputed over the harness's disks); followers' commit indexes and prefixes are checked against the canonical committed log. Sampled."),
@@ -43,7 +43,7 @@ checks = {
          "Any panic escaping a call under the usage contract of DESIGN.md section 3 is a violation. Sampled."),
  "C15": ("4/C15", "runtime monitor of bounded progress: fault-free heal suffix after every hostile prefix, convergence conjunction checked within a fixed number of election timeouts (logical ticks)",
          "Liveness restated as bounded progress (120 election timeouts, logical time only). Sampled; a slowdown below the bound is invisible."),
- "C16": ("4/C16", "runtime monitor (wire-derived inflight window per streaming epoch, wire-derived pending-snapshot flag, message sizes, reference uncommitted-size accounting, invariant I5) over simulated hostile executions",
+ "C16": ("4/C16", "runtime monitor (wire-derived inflight window per streaming epoch, wire-derived pending-snapshot flag, message sizes, reference uncommitted-size accounting, invariant I5, probing of byte budgets below the message size limit) over simulated hostile executions",
          "Sampled."),
  "C17": ("4/C17", "runtime monitor (pre-vote grants per campaign, term/vote stability on MsgPreVote, harness-side lease clock, quorum-contact clock and reference model of the quorum-check round for CheckQuorum leaders) over simulated hostile executions",
          "Sampled."),
@@ -51,7 +51,7 @@ checks = {
          "Exhaustive up to the stated depth over a fixed operation menu, sampled beyond."),
  "C19": ("4/C19", "re-execution monitor: SHA-256 digest over every Ready of a world compared between generation, in-process replay of the recorded actions on fresh nodes, and a run in a different process",
          "Sampled worlds (up to 9 peers)."),
- "C20": ("4/C20", "runtime monitor (proposal registry with unique payloads, per-call leader append diff, per-log duplicate accounting) over simulated hostile executions",
+ "C20": ("4/C20", "runtime monitor (proposal registry with unique payloads, per-call leader append diff, per-log duplicate accounting, integrity of Ready.Messages slices held by the application) over simulated hostile executions",
          "Sampled."),
 }
 
